@@ -203,9 +203,67 @@ def analyse_bind(mir):
     return out
 
 
+def analyse_tr_counter(mir):
+    """Everywhere an entry is pushed onto the trail, the trail top `tr` advances by exactly the
+    number of entries pushed on that path (choice points save `tr`; entries beyond it would be
+    dropped by the next truncation)."""
+    tr = util.struct_field_index("src/machine/machine_state.rs", "MachineState", "tr")
+    out = []
+    for name, spans in mir.index.items():
+        for (s0, e0) in spans:
+            if not any("Vec::<types::TrailEntry>::push" in l for l in mir.lines[s0:e0]):
+                continue
+            body = mir.body(name)
+            heads = util.back_edge_targets(body)
+            entry = heads[0] if heads else "bb0"
+            ex = core.Executor(body, stop_blocks=[heads[0]] if heads else [], max_depth=300,
+                               max_paths=3000)
+            paths = ex.run(entry)
+            # inside a closure `tr` is a captured `&mut usize`: find the capture field by its
+            # debug name (self__machine_st__tr => (*(_1.K: &mut usize)))
+            cap = None
+            for dn, place in body.debug.items():
+                if re.search(r"(^|__)tr$", dn):
+                    mm = re.search(r"_1\.(\d+):", place)
+                    if mm:
+                        cap = int(mm.group(1))
+            npaths, bad = 0, []
+            for p in paths:
+                pushes = core.calls(p, r"Vec::<types::TrailEntry>::push$")
+                if not pushes:
+                    continue
+                npaths += 1
+                inc = 0
+                for e in p.events:
+                    is_tr = e[0] == "store" and re.search(r"\.%d$" % tr, e[1]) and "(*_" in e[1]
+                    if e[0] == "store" and not is_tr and cap is not None:
+                        mm = re.match(r"^\(\*(_\d+)\)$", e[1])
+                        if mm:
+                            base = p.env.get(mm.group(1))
+                            # a reference local copied out of the capture field _1.K
+                            if base is not None:
+                                root, projs = util.field_path(base)
+                                is_tr = root == ("s", "_1") and projs[:1] == [".%d" % cap]
+                    if is_tr:
+                        v = e[2]
+                        # value = old tr + c   (AddWithOverflow(tr, c).0)
+                        if v[0] == "proj" and v[2] == ".0" and v[1][0] == "op" and \
+                                v[1][1] in ("AddWithOverflow", "Add") and v[1][2][1][0] == "c":
+                            inc += v[1][2][1][1]
+                        elif v[0] == "op" and v[1] == "Add" and v[2][1][0] == "c":
+                            inc += v[2][1][1]
+                if inc != len(pushes):
+                    bad.append("%d entries pushed, tr advanced by %d" % (len(pushes), inc))
+            out.append({"fn": name.split("::")[-2] + "::" + name.split("::")[-1]
+                        if "closure" in name else name.split("::")[-1],
+                        "paths_pushing": npaths, "bad": bad})
+    return out
+
+
 def run(thorough=False):
     try:
         mir, secs, cached = util.get()
+        counters = analyse_tr_counter(mir)
         queries, meta = analyse_trail(mir)
         unwind = analyse_unwind(mir)
         binds = analyse_bind(mir)
@@ -217,7 +275,8 @@ def run(thorough=False):
            "samples": [],
            "mirsmt_regions": ["MachineState::trail (TrailRef::Ref arms)",
                               "Machine::unwind_trail (TrailedHeapVar/StackVar/AttrVar arms)",
-                              "MachineState::bind, MachineState::bind_attr_var (store -> trail)"],
+                              "MachineState::bind, MachineState::bind_attr_var (store -> trail)",
+                              "every function that pushes onto the trail (tr bookkeeping)"],
            "mirsmt_seconds": br["z3_s"],
            "mirsmt_assumptions": ["hb / b hold the heap top / choice point of the newest choice "
                                   "point (their maintenance is outside)",
@@ -240,6 +299,15 @@ def run(thorough=False):
             viol.append({"site": "unwind_trail", **u})
         res["samples"].append({"query": "unwind_trail %s resets cell h to %s(h)" % (u["entry"], u["resets_to"]),
                                "answer": "holds" if u["ok"] else "fails"})
+    for cn in counters:
+        res["evaluations"] += 1
+        good = cn["paths_pushing"] > 0 and not cn["bad"]
+        res["distinct_nontrivial"] += good
+        if not good:
+            viol.append({"site": cn["fn"], "problems": cn["bad"][:4] or ["no pushing path found"]})
+        res["samples"].append({"query": "%s: on each of %d paths that push trail entries, tr advances "
+                               "by the number pushed" % (cn["fn"], cn["paths_pushing"]),
+                               "answer": "holds" if good else "fails"})
     for bnd in binds:
         good = bnd["stores"] > 0 and not bnd["bad"]
         res["distinct_nontrivial"] += good
